@@ -67,6 +67,73 @@ c.returns("exists", "EXISTS(output_file)")
 c.raises("FileNotFoundError")  # missing output directory
 c.modifies("self.cache_data")
 
+# ------------------------------------------------------------------------------------------------
+# The loops (any number of inputs / slots): invariant rule.  What is proved for EVERY number of inputs and every content is the
+# representation invariant (so: every slot after the first begins at a multiple of the erase-block size, the format stays
+# well-formed by add_cache_slot's byte-level clauses) and that nothing but ValueError (duplicate URI, malformed argument) /
+# FileNotFoundError escapes.  That the decoded pairs are EXACTLY the supplied ones for sequences longer than the unrolled ones
+# is the bounded stand-in's.
+from pyvc.shapes import ObjInvT  # noqa: E402
+INV_CACHE = INV.replace("self.", "cache.")
+CP_INV = ObjInvT(CP, INV)
+
+
+def _files_below_4g(it, env):
+    it.fs_len_bound = 2 ** 32
+    it.assumptions_used.add("input assumption: every payload file / cache entry is shorter than 2**32 bytes (the format's 4-byte length field)")
+
+
+c = Contract(F, "CacheFromPayloads.fill_cache_from_payloads", ["C10"])
+c.param("cache", CP)
+c.param("input", SeqStr())
+c.requires("inv", INV_CACHE)
+c.setup = _files_below_4g
+c.returns("invariant_kept", INV_CACHE)
+c.raises("ValueError")
+c.raises("FileNotFoundError")
+c.loops(cache=CP_INV)
+c.modifies("cache.first_slot", "cache.cache_data", "cache.uris")
+
+c = Contract(F, "CacheMerge.merge_cache_files", ["C10"])
+c.param("cache", CP)
+c.param("input", SeqStr())
+c.requires("inv", INV_CACHE)
+c.setup = _files_below_4g
+c.returns("invariant_kept", INV_CACHE)
+c.raises("ValueError")
+c.raises("FileNotFoundError")
+c.loops(cache=CP_INV)
+c.modifies("cache.first_slot", "cache.cache_data", "cache.uris")
+
+
+def _cache_file_setup(it, env):
+    """Precondition of merge_single_cache_file: the input IS a cache file, i.e. cbor2.loads gives a mapping from text to byte
+    strings shorter than 2**32 (of any size; the empty key is padding)."""
+    import z3
+    from pyvc import plain
+    _files_below_4g(it, env)
+    pt = it.stubs.path_term(it, env.lookup("cache_input_file"))
+    data = it.fs.read_bin(pt)
+    def val(it_, key, hint):
+        b = it_.fresh_bytes(hint)
+        it_.assume(z3.Length(b.e) < 2 ** 32)
+        return b
+    m = plain.VPMap(it, it.fresh_name("cache_dict"), lambda it_, hint: it_.fresh_str(hint), val)
+    it.loads_cache = getattr(it, "loads_cache", {})
+    it.loads_cache[z3.simplify(data).sexpr()] = m
+    it.assumptions_used.add("precondition of merge_single_cache_file: the input file decodes (cbor2.loads) to a mapping text -> byte string (it is a cache file)")
+
+
+c = Contract(F, "CachePartition.merge_single_cache_file", ["C10"])
+c.param("self", CP)
+c.param("cache_input_file", PathStr(exists=True))
+c.requires("inv", INV)
+c.setup = _cache_file_setup
+c.returns("invariant_kept", INV)
+c.raises("ValueError")
+c.loops(**{"self": CP_INV})
+c.modifies("self.first_slot", "self.cache_data", "self.uris")
+
 ASSUMPTIONS = [L_DIV]
 
 
